@@ -103,6 +103,9 @@ impl Property for C26 {
             if out.equals_m_errors {
                 add("stat.errors_equal_model_M", 1);
             }
+            for (k, v) in &out.model_rows {
+                add(&format!("model_row.{k}"), *v);
+            }
             let mut faults = 0;
             if let Some(real) = &out.real {
                 for (k, v) in &real.world.fired {
